@@ -127,18 +127,48 @@ def mentions(e: z3.ExprRef, names: Sequence[str]) -> bool:
     return False
 
 
+def _derived_consts(e: z3.ExprRef, names: Sequence[str]) -> List[z3.ExprRef]:
+    seen = set()
+    out: Dict[str, z3.ExprRef] = {}
+    stack = [e]
+    ns = set(names)
+    while stack:
+        x = stack.pop()
+        if x.get_id() in seen:
+            continue
+        seen.add(x.get_id())
+        if z3.is_const(x) and x.decl().kind() == z3.Z3_OP_UNINTERPRETED and x.decl().name() in ns:
+            out[x.decl().name()] = x
+        stack.extend(x.children())
+    return list(out.values())
+
+
 def data_independent_goal(k: z3.ArithRef, ctx: Optional[Ctx] = None) -> z3.BoolRef:
-    """k takes the same value when every tensor constant is replaced by a fresh one
-    (the renamed copy satisfies the same axioms and path condition)."""
+    """k takes the same value when every tensor constant -- and every scalar the program DERIVED
+    from tensor data (ctx.data_derived: int(t.sum()), ...) -- is replaced by a fresh one (the
+    renamed copy satisfies the same axioms and path condition)."""
     k = z3.simplify(k)
-    cs = [c for c in t_consts(k) if not c.eq(tz.ONE) and not c.eq(tz.TZERO)]
+    derived = [str(d) for d in getattr(ctx, "data_derived", [])] if ctx is not None else []
+    cs = {str(c): c for c in t_consts(k) if not c.eq(tz.ONE) and not c.eq(tz.TZERO)}
+    cs.update({str(c): c for c in _derived_consts(k, derived)})
     if not cs:
         return z3.BoolVal(True)
-    sub = [(c, z3.Const(str(c) + "'", tz.T)) for c in cs]
+    hyps = list(ctx.hyps()) if ctx is not None else []
+    if derived:
+        # closure: a derived scalar is tied to tensors by the axioms that mention it
+        changed = True
+        while changed:
+            changed = False
+            for h in hyps:
+                if mentions(h, list(cs)):
+                    for c in [c for c in t_consts(h) if not c.eq(tz.ONE) and not c.eq(tz.TZERO)] + _derived_consts(h, derived):
+                        if str(c) not in cs:
+                            cs[str(c)] = c
+                            changed = True
+    sub = [(c, z3.Const(str(c) + "'", c.sort())) for c in cs.values()]
     goal = k == z3.substitute(k, *sub)
     if ctx is not None:
-        names = [str(c) for c in cs]
-        copies = [z3.substitute(h, *sub) for h in ctx.hyps() if mentions(h, names)]
+        copies = [z3.substitute(h, *sub) for h in hyps if mentions(h, list(cs))]
         if copies:
             goal = z3.Implies(z3.And(*copies), goal)
     return goal
@@ -271,6 +301,10 @@ def run_config(
             if p.ctx.unknown_branches:
                 rec.notes.append(f"path {i}: {p.ctx.unknown_branches} branch feasibility checks returned unknown (both sides explored)")
         rec.cover = "sat" if covered else "no-satisfiable-path"
+        cuts = getattr(paths, "cuts", [])
+        if cuts:
+            # the obligations of the completed paths stay decided; the job as a whole is incomplete
+            rec.error, rec.error_kind = f"out of reach: {len(cuts)} path(s) abandoned: {cuts[0]}", "out_of_reach"
     except OutOfReach as e:
         rec.error, rec.error_kind = f"out of reach: {e}", "out_of_reach"
     except Exception as e:  # machinery error
